@@ -1182,7 +1182,11 @@ class Exec:
         if nextk is not None:
             e["it"] = I(nextk)  # a while loop has no iteration index of its own: an enclosing for loop's `it` stays visible
         if spec.hints:
-            self.apply_hints(s2, spec.hints(NS(head_env, self.ghosts), NS(e, self.ghosts)), f"{lid}", node.lineno)
+            import inspect
+            hargs = [NS(head_env, self.ghosts), NS(e, self.ghosts)]
+            if len(inspect.signature(spec.hints).parameters) >= 3:
+                hargs.append(v0)  # the state at loop entry (as in the invariant)
+            self.apply_hints(s2, spec.hints(*hargs), f"{lid}", node.lineno)
         for x, hv in head_env.items():
             if isinstance(hv, Opt) and hv.definite() and x in e and isinstance(e[x], Opt) and not e[x].definite():
                 self.oblige(s2, "inv-pres", f"{lid}:type:{x}", z3.Not(S._b(e[x].n)), node.lineno)
